@@ -972,7 +972,11 @@ class Interp:
         if isinstance(v, (tuple, range)):
             return list(v)
         if isinstance(v, dict):
+            if live:
+                return self.models.DictView(v, 'keys').live_iter()
             return list(v.keys())
+        if live and isinstance(v, self.models.DictView):
+            return v.live_iter()
         if isinstance(v, (set, frozenset)):
             return sorted(v, key=repr)
         if isinstance(v, str):
